@@ -18,7 +18,7 @@ add("C01", "model_checking", "TLC proves the start guard on the implementation-s
     "(TLC-generated behaviours, seeded schedules, free runs); strict conformance of the traces with the model is checked too", SCHED_NOTE, SCHED_TECH, "sched", "5/C01")
 add("C02", "model_checking", "final-state consistency (Props_Sched!C02_Local) is an invariant of the model at Returned and a monitor on every real run that was not stopped", SCHED_NOTE, SCHED_TECH, "sched", "5/C02")
 add("C03", "model_checking", "execution-count bounds, retry accounting, no-ghost-success and dry-run clauses: invariants of the model, monitors on real traces; model counter-examples under stop are replayed as leads", SCHED_NOTE, SCHED_TECH, "sched", "5/C03")
-add("C04", "model_checking", "run outcome and handler sequence: invariants of the model (all handler subsets), monitors on real traces incl. stop at arbitrary gates", SCHED_NOTE, SCHED_TECH, "sched", "5/C04")
+add("C04", "model_checking", "run outcome and handler sequence: invariants of the model (all handler subsets), monitors on real traces incl. stop at arbitrary gates; plus 72 runs of the real binary (6 step scripts incl. stopped and DAG precondition unmet x 5 handler sets x mail on/off x failing handlers): persisted status, exit code, handlers that ran and mails received by a local SMTP sink, judged by AgentLifeObserve with the model's ExpectedHandlers", SCHED_NOTE, SCHED_TECH, "sched", "5/C04")
 add("C05", "model_checking", "no start after stop / signal reaches live processes / kill escalation / timeout: invariants and a liveness property of the model, monitors on real traces with obeying and ignoring scripted processes; plus four runs of the real binary stopped with the real stop command (shell step obeying SIGTERM / ignoring it / wanting signalOnStop SIGINT / repeating), judged by AgentLifeObserve's C05 clauses", SCHED_NOTE, SCHED_TECH, "sched", "5/C05")
 add("C15", "model_checking", "high-water mark of executing steps <= maxActiveRuns as model invariant plus liveness (run ends under every limit) and as monitor at every ExecBegin of real traces; incl. repeating steps that go on after a failed iteration (config family RepeatLimit / generator family replimit)", SCHED_NOTE, SCHED_TECH, "sched", "5/C15")
 
